@@ -23,7 +23,7 @@ import impl
 from common import driver_batch
 
 ID = 'C10'
-EXTRA_MODULES = ['Mistletoe.Proofs.Reflow', 'Mistletoe.Proofs.ReflowQuote', 'propsdriver']
+EXTRA_MODULES = ['Mistletoe.Proofs.Reflow', 'Mistletoe.Proofs.ReflowQuote', 'Mistletoe.Proofs.ReflowList', 'propsdriver']
 RULE = ('fragment lists (word-wrappable text with all kinds of whitespace, glued fragments, hard breaks) x L in '
         '{None, 0, -3..120}; generated prose documents (plain words that cannot be mistaken for block markers; emphasis, '
         'strong, code spans with inner spaces, links with titles, images, hard breaks, link definitions, headings, code '
@@ -33,8 +33,10 @@ TRUSTED = ['container prefixes of output lines are recognised by a regular expre
 ASSUMPTIONS = ['prose words cannot be mistaken for block markers at the start of a line (the complementary class is the '
                'recorded finding named by the property)']
 PARTIAL = ['meaning preservation, idempotence and the line bound on PARSED documents are proved for the plain-word prose fragment '
-           '(paragraphs of words without inline markup, at top level and inside any number of block quotes; Props/C10_Reflow.lean); '
-           'paragraphs inside list items (their prefix budget is proved separately: C10_budget), hard breaks, inline markup, and '
+           '(paragraphs of words without inline markup, at top level and inside any number of block quotes; Props/C10_Reflow.lean) and '
+           'for such paragraphs inside list items (bullet and ordered lists in normal form, padding 1-4, tight or loose, nested to any '
+           'depth, also inside block quotes; budget max(L - 2k - w, 1) with w the width of the item prefixes; Props/C10_Lists.lean); '
+           'a list directly behind a paragraph inside an item, block quotes inside items, hard breaks, inline markup, and '
            'the non-rebreaking of code/HTML/table/ATX blocks are explored on the implementation']
 
 WORDS = ['alpha', 'beta', 'gamma', 'delta', 'words', 'wrap', 'here', 'is', 'a', 'an', 'of', 'line', 'text', 'longerword',
@@ -271,6 +273,7 @@ def units(ctx):
     for (unit, case), e, m in zip(meta, exp, model):
         ctx.compare(unit, case, m, e)
     theorem_unit(ctx)
+    theorem_unit_lists(ctx)
 
 
 TH_WORDS = WORDS + ['a.b', 'x1', 'q?', '(see', 'p.3)', 'isn\'t', 'k=v', '"quoted"', 'semi;colon', 'é', '日本', 'A', 'co-op', 'end.',
@@ -304,6 +307,80 @@ def theorem_unit(ctx):
         ctx.compare('c10.theorem', {'text': r['text'], 'L': L, 'normalize_whitespace': nw},
                     {'md': r['expected'], 'idempotent': True, 'same_html_up_to_breaks': True}, real, kind=('L<=10' if L <= 10 else 'L>10') + ',depth%d' % q['depth'])
     ctx.notes.append('of %d generated plain-word documents %d satisfy the hypothesis of C10_prose_reflow_markdown_partial / C10_quoted_reflow_partial' % (len(reqs), n_ok))
+
+
+def _pt_tree(rng, vocab, depth):
+    """a tree of the fragment of Props/C10_Lists.lean: plain-word paragraphs and lists in the renderer's normal form"""
+    if depth >= 3 or rng.random() < 0.45:
+        return {'k': 'para', 'lines': [[rng.choice(vocab) for _ in range(rng.randint(1, 7))] for _ in range(rng.randint(1, 3))]}
+    ordered = rng.random() < 0.4
+    loose = rng.random() < 0.5
+    n = rng.randint(1, 3)
+    if loose:
+        items = [_pt_siblings(rng, vocab, depth + 1) for _ in range(n)]
+        if n == 1 and len(items[0]) == 1:
+            items[0].append(_pt_tree(rng, vocab, 9))
+    else:
+        items = [[_pt_tree(rng, vocab, 9)] for _ in range(n)]
+    return {'k': 'list', 'ordered': ordered, 'start': rng.choice([1, 1, 2, 9, 10, 99]) if ordered else 0,
+            'marker': rng.choice('.)') if ordered else rng.choice('-+*'), 'pad': rng.choice([1, 1, 1, 2, 3, 4]), 'loose': loose, 'items': items}
+
+
+def _pt_siblings(rng, vocab, depth):
+    out = [_pt_tree(rng, vocab, 9)]          # an item (and the document) begins with a paragraph
+    for _ in range(rng.randint(0, 2)):
+        t = _pt_tree(rng, vocab, depth)
+        if out[-1]['k'] == 'list' and t['k'] == 'list':
+            t = _pt_tree(rng, vocab, 9)
+        out.append(t)
+    return out
+
+
+def _pad1(t):
+    if t['k'] == 'list':
+        t['pad'] = 1
+        for it in t['items']:
+            for k in it:
+                _pad1(k)
+
+
+def theorem_unit_lists(ctx):
+    """`C10_list_reflow_quoted_partial` and its meaning / idempotence companions on the real renderer: plain-word paragraphs
+    inside (nested) list items, at top level and inside k block quotes"""
+    rng = ctx.rng('theorem-lists')
+    reqs = []
+    for i in range(ctx.budget(1200, 12000)):
+        vocab = TH_WORDS if rng.random() < 0.2 else TH_WORDS[:len(WORDS) + 14]
+        forest = _pt_siblings(rng, vocab, 0)
+        if rng.random() < 0.5:
+            forest = forest[1:] or forest          # documents that begin with a list
+        nw = bool(i % 2)
+        if nw:
+            for t in forest:
+                _pad1(t)
+        reqs.append({'op': 'c10.lists', 'forest': forest, 'L': rng.choice([1, 2, 3, 5, 8, 10] + list(range(1, 61))),
+                     'depth': rng.choice([0, 0, 0, 1, 2]), 'nw': nw})
+    res = common.driver_batch(reqs, binary=common.PROPS_DRIVER)
+    n_ok = n_list = 0
+    for q, r in zip(reqs, res):
+        if not (isinstance(r, dict) and r.get('ok')):
+            continue
+        n_ok += 1
+        n_list += any(t['k'] == 'list' for t in q['forest'])
+        L, nw = q['L'], q['nw']
+        try:
+            out = impl.parse_render('MarkdownRenderer', {'max_line_length': L, 'normalize_whitespace': nw}, r['text'])[1]
+            again = impl.parse_render('MarkdownRenderer', {'max_line_length': L, 'normalize_whitespace': nw}, out)[1]
+            h0 = impl.parse_render('HtmlRenderer', {}, r['text'])[1]
+            h1 = impl.parse_render('HtmlRenderer', {}, out)[1]
+            real = {'md': out, 'idempotent': again == out, 'same_html_up_to_breaks': h0.replace('\n', ' ') == h1.replace('\n', ' ')}
+        except Exception as e:
+            real = {'raises': type(e).__name__}
+        ctx.compare('c10.theorem.lists', {'text': r['text'], 'L': L, 'normalize_whitespace': nw},
+                    {'md': r['expected'], 'idempotent': True, 'same_html_up_to_breaks': True}, real,
+                    kind=('L<=10' if L <= 10 else 'L>10') + ',depth%d' % q['depth'])
+    ctx.notes.append('of %d generated documents with lists %d satisfy the hypothesis oksP of C10_list_reflow_quoted_partial (%d contain a list)'
+                     % (len(reqs), n_ok, n_list))
 
 
 def _docs(ctx):
